@@ -9,7 +9,8 @@ import itertools
 KORD = {"B": 0, "S": 1, "C": 2, "M": 3, "D": 4, "X": 5, "U": 6}
 SHORT = [0, 1, 30, 31]
 FULL = [0, 1, 29, 30, 31, 32, 61]
-BASES = ["2024-01-10", "2024-02-01", "2024-03-07", "2023-12-05"]
+# plain; 29 Feb inside the window; window straddles 5/6 April; straddles the end of a normal year; straddles the end of a leap year
+BASES = ["2024-01-10", "2024-02-01", "2024-03-07", "2023-12-05", "2024-12-05"]
 
 
 def canon_order(lines):
